@@ -202,9 +202,16 @@ def main():
                 undecided.append({"unit": b.split("::")[0], "reason": f"baseline obligation {b} was not generated on this run"})
 
         if args.rebaseline:
-            keep = {b for b in baseline if not b.startswith(sel_prefix)}
-            new = {o["id"] for o in obligations if o["status"] == "discharged"}
-            json.dump({"obligations": sorted(keep | new)}, open(BASELINE_FILE, "w"), indent=1)
+            # re-read under a lock: other properties may have been re-baselined meanwhile
+            import fcntl
+            with open(BASELINE_FILE + ".lock", "w") as lk:
+                fcntl.flock(lk, fcntl.LOCK_EX)
+                current = set(load_json(BASELINE_FILE, {"obligations": []})["obligations"])
+                keep = {b for b in current if not b.startswith(sel_prefix)}
+                new = {o["id"] for o in obligations if o["status"] == "discharged"}
+                tmp = BASELINE_FILE + f".tmp{os.getpid()}"
+                json.dump({"obligations": sorted(keep | new)}, open(tmp, "w"), indent=1)
+                os.replace(tmp, BASELINE_FILE)
             log(f"baseline: {len(new)} obligations recorded for {prop} ({tier})")
 
         # ------------------------------------------------------------------ replay
